@@ -73,6 +73,7 @@ func (s *sim) applyWithdrawKnobs(cfg *config.Configuration) {
 	}
 	s.arbKeys = makeArbiterKeys(s.c.Plan.Seed, n)
 	cfg.NormalSchnorrStartHeight = 0
+	cfg.ReturnCrossChainCoinStartHeight = 0
 	cfg.CRConfiguration.MemberCount = uint32(n)
 	cfg.CRConfiguration.CRAgreementCount = uint32(n*2/3 + 1)
 }
@@ -87,6 +88,9 @@ type WdSpec struct {
 	Mixed  bool  `json:"mixed,omitempty"`  // also spends an ordinary output
 	DupIn  bool  `json:"dupin,omitempty"`  // the same side-chain hash twice inside this transaction
 	Signer int   `json:"signer,omitempty"` // selector: which arbiters sign / which index is repeated or out of range
+	// Ret > 0: not a withdrawal but a side-chain deposit return (C31) with
+	// payload version Ret-1, authorised by the arbiters' multisig script
+	Ret int `json:"ret,omitempty"`
 }
 
 type wdFacts struct {
@@ -96,6 +100,8 @@ type wdFacts struct {
 	authWhy  string // why not
 	dupIn    bool
 	nonCross bool
+	ret      bool // a deposit return
+	retVer   int
 }
 
 func sideHash(i int) common.Uint256 {
@@ -142,6 +148,12 @@ func (s *sim) makeWithdraw(v *view, spec TxSpec) *txInfo {
 	if len(s.arbKeys) > 16 {
 		wf.ver = 2 // the multisig script forms name at most 16 keys
 	}
+	if w.Ret > 0 {
+		if len(s.arbKeys) > 16 {
+			return nil
+		}
+		wf.ret, wf.retVer, wf.ver = true, mod(w.Ret-1, 256), 0
+	}
 	facts := &txFacts{signedBy: map[int]bool{}, wd: wf}
 	facts.signedBy[cc.idx] = true // the authority over the cross-chain address is judged by labelWithdraw
 	var payer *actor
@@ -183,7 +195,9 @@ func (s *sim) makeWithdraw(v *view, spec TxSpec) *txInfo {
 		seen[x] = true
 		wf.hashes = append(wf.hashes, x)
 	}
-	if w.DupIn && wf.ver == 0 {
+	if wf.ret {
+		wf.hashes = wf.hashes[:1] // one plain output; a return names no side-chain hash here
+	} else if w.DupIn && wf.ver == 0 {
 		// (versions 1 and 2 name the hash per output, and one side-chain
 		// transaction may legitimately pay several main-chain outputs)
 		wf.dupIn = true
@@ -224,7 +238,7 @@ func (s *sim) makeWithdraw(v *view, spec TxSpec) *txInfo {
 	n := len(s.arbKeys)
 	q := s.quorum()
 	auth := w.Auth
-	if wf.ver <= 1 && auth > 4 || wf.ver == 2 && auth != 0 && auth < 5 {
+	if wf.ver <= 1 && auth > 4 || wf.ver == 2 && auth != 0 && auth < 5 || wf.ret {
 		auth = 0
 	}
 	// V2: the signer list is part of the signed content
@@ -254,6 +268,11 @@ func (s *sim) makeWithdraw(v *view, spec TxSpec) *txInfo {
 		}
 	}
 	tx := transaction.CreateTransaction(common2.TxVersion09, common2.WithdrawFromSideChain, byte(wf.ver), pld, []*common2.Attribute{}, inputs, outs, 0, []*pg.Program{})
+	if wf.ret {
+		wf.hashes = nil
+		tx = transaction.CreateTransaction(common2.TxVersion09, common2.ReturnSideChainDepositCoin, byte(wf.retVer), &payload.ReturnSideChainDepositCoin{}, []*common2.Attribute{}, inputs, outs, 0, []*pg.Program{})
+		s.c.Fault(fmt.Sprintf("deposit-return:payload-version-%d", wf.retVer))
+	}
 	s.txNonce++
 	nonce := common2.NewAttribute(common2.Nonce, []byte(fmt.Sprintf("%d", s.txNonce)))
 	tx.SetAttributes([]*common2.Attribute{&nonce})
@@ -383,6 +402,16 @@ func (s *sim) makeWithdraw(v *view, spec TxSpec) *txInfo {
 // ledger rules (inputs exist, amounts, fee) found nothing.
 func (s *sim) labelWithdraw(v *view, info *txInfo, height uint32) string {
 	wf := info.facts.wd
+	if wf.ret {
+		// C31: from the restriction height on only LEGACY deposit returns that
+		// spend nothing but cross-chain outputs may spend them (the freeze
+		// window is judged by label); no rule names deposit returns before
+		if s.ccFreeze > 0 && height >= s.ccRestrict && (wf.retVer != 0 || wf.nonCross) {
+			s.c.Probe(fmt.Sprintf("deposit-return-judged-restricted:legacy=%v,only-cross=%v", wf.retVer == 0, !wf.nonCross))
+			return "crosschain-utxo-restricted"
+		}
+		return ""
+	}
 	if wf.nonCross {
 		return "withdraw-spends-ordinary-output"
 	}
